@@ -361,7 +361,7 @@ func (w *c18world) variants(doc *jmut.Node, rngPick func(n int) int, full bool) 
 		case key == "ext" && n.K == jmut.Obj:
 			for mi, m := range n.M {
 				// other keys with the same value, same key with other values
-				for _, k := range append(sample(extKeys, 25), "zz-undefined-ext") {
+				for _, k := range append(sample(extKeys, 25), "zz-undefined-ext", m.Key+"+other", m.Key+"+a+b", "zz+"+m.Key) {
 					d := doc.Clone()
 					e := d.At(p)
 					e.M[mi].Key = k
@@ -386,6 +386,12 @@ func (w *c18world) variants(doc *jmut.Node, rngPick func(n int) int, full bool) 
 				d := doc.Clone()
 				d.At(p).Set(k, jmut.S("01"))
 				emit("ext-key", p.String()+"+"+k, d)
+			}
+			// a composite of a defined key with a valid value of that key
+			for _, m := range n.M {
+				d := doc.Clone()
+				d.At(p).Set(m.Key+"+extra", m.Val.Clone())
+				emit("ext-key", p.String()+"+"+m.Key+"+extra", d)
 			}
 		case key == "taxes" && n.K == jmut.Arr && len(n.A) > 0 && (p.Class() == "lines[].taxes" || p.Class() == "discounts[].taxes" || p.Class() == "charges[].taxes"):
 			// combos with a country override, with and without a regime
